@@ -52,6 +52,9 @@ pub struct Qcow2Dev<T> {
     // set in case that any dirty meta is made
     need_flush: AtomicBool,
     flush_lock: AsyncMutex<()>,
+    // one refcount flush at a time: when flush_refcount() returns, nobody
+    // else is still busy writing what it found clean
+    refcount_flush_lock: AsyncMutex<()>,
 
     file: T,
     backing_file: Option<Box<Qcow2Dev<T>>>,
@@ -113,6 +116,7 @@ impl<T: Qcow2IoOps> Qcow2Dev<T> {
             new_cluster: AsyncRwLock::new(Default::default()),
             need_flush: AtomicBool::new(false),
             flush_lock: AsyncMutex::new(()),
+            refcount_flush_lock: AsyncMutex::new(()),
         };
 
         Ok(dev)
